@@ -43,6 +43,8 @@ func main() {
 		sem <- struct{}{}
 		go func(i int) { defer wg.Done(); defer func() { <-sem }(); run(c, i) }(i)
 	}
+	wg.Add(1)
+	go func() { defer wg.Done(); witness(c) }()
 	wg.Wait()
 	c.Finish("per scenario 8 accounts issue seeded sequences of stake, unstake (partial/full), producer votes (overlapping candidate sets), parameter votes, name create/update and transfers; the chain is moved past the 86400-block lock period with empty blocks so that operations are tried right before, at and after the lock boundary. After EVERY block, through the node's query surface: total stake = sum of stakes = balance of the staking account; every tally = sum of the voting amounts of the accounts currently voting for the candidate; voting amount <= stake; ranking non-increasing with a strict tie-break; refusals inside the lock period / below minimum; unstake returns exactly the amount; name owner as in the reference model and only for the price; voting-power ranking observationally equal before and after a restart. A case = one block; non-trivial = block with >=1 successful governance tx; distinct = hash(scenario, height, txs)",
 		c.Pick(40, 400),
@@ -98,15 +100,15 @@ func run(c *vf.Ctx, si int) {
 	nonce := make([]uint64, NA+1)
 	height := func() uint64 { b, _ := n.Best(); return b.No }
 	type op struct {
-		desc   string
-		a      int
-		tx     *types.Tx
-		kind   string
-		amount *big.Int
+		desc       string
+		a          int
+		tx         *types.Tx
+		kind       string
+		amount     *big.Int
 		mustRefuse string // non-empty: the statement requires refusal, with the reason
 		handover   bool   // second update of the former owner in a same-block handover
-		aux    string
-		auxI   int
+		aux        string
+		auxI       int
 	}
 	mkGov := func(a int, to string, amount *big.Int, payload []byte, no uint64) *types.Tx {
 		nonce[a]++
